@@ -34,3 +34,6 @@ func VNewGossipNoSchedule(state *clusterState, config *Config, packetConn net.Pa
 func VGossipNode(g *Gossip, node NodeMetadata) error { return g.gossip(node) }
 func VGossipJoin(g *Gossip, addr string) (string, error) { return g.join(addr) }
 func VGossipLeave(g *Gossip, addr string) error          { return g.leave(addr) }
+
+// VGossipRound is one gossipRound (peer selection + digest requests).
+func VGossipRound(g *Gossip) error { return g.gossipRound() }
